@@ -72,7 +72,11 @@ CHECKS = {
    "Every byte string <= 4/5 over 21 JSON symbols (punctuation, digits, letters, the schema's key words) and every document {left, operator, right, extras} over 22 leaf values x 22 operator names x (values ∪ 243 boundary objects) is decoded by the real UnmarshalJSON under recover; whatever decodes and validates is printed, re-encoded and rendered both ways under recover. Depth 2 pairs every representative of a decoded-shape signature (≈1 000 validated, ≈2 000 all) with every plain value and every coarse representative.",
    'Depth-2 children are abstracted by shape signature (operator, dynamic types, string classes the code branches on, render outcome), recomputed from the implementation on every run; depth 1 is exhaustive without abstraction.',
    "4/C13"),
- "C14": (False, "", "", "", "4/C14"),
+ "C14": (True,
+   "stateless model checking of the real library under a hand-written cooperative scheduler: statement points inserted by source instrumentation, all schedules up to a preemption bound for all ordered operation pairs on colliding inputs; plus exhaustive 2-call sequences against fresh-process references; free-running -race run as complement",
+   "The library source is instrumented from the working tree (a vsched.Point before every statement, via go build -overlay); harness threads run one at a time and the explorer enumerates every schedule with <= 1 preemption before any statement for all 121 ordered pairs of the 11 operations on a query that drives every shared table (plus the same shared *Expression and the package-level driver), every schedule with 2 preemptions where the second sits at a statement naming a package-level variable, 3 preemptions at such statements, and 3-thread scenarios at 1 preemption (thorough: 3 queries, 2 preemptions at function entries / anywhere for heavy pairs). Each schedule: no panic, each thread's result equals its sequential reference, shared expression DeepEqual to a fresh parse, all package-level variables (generated dump, includes variables added by a change) unchanged; first schedule of every scenario replayed and compared. E1: all 184k two-call sequences over 11 ops x 39 queries in one process against references computed in fresh processes.",
+   "Granularity is the Go statement; torn writes inside one statement and races that do not change a result within the bound are left to the free-running -race complement (same bodies, 8 goroutines, GORACE=halt_on_error), which is reported but is not the deciding step.",
+   "4/C14"),
  "C15": (True,
    'bounded exhaustive exploration of driver.Base.Render over configurations x trees with tracing render functions, checked against a fold reference model',
    'All 40 configurations (all-tracing map, 19 single-operator overrides, 19 single-operator removals, the README construction) x every tree of T(21,1) ∪ T(6,2) (thorough T(21,2)) obtained both by Parse and through the public constructors: the call log must be exactly one call per node, to the function registered for that node\'s operator, after its children, with its children\'s results as (left, right) wrapped in parentheses at most, and Render\'s result must be the root call\'s result; with an operator removed Render must return ("", error) iff the tree contains it; ToPostgres/ToParameterizedPostgres must fail on every text containing ~ or ^.',
